@@ -223,7 +223,7 @@ def _wl_model_family(ctx, impl):
     refinement evaluated in Coq; hypothesis of the partial theorems evaluated on every graph (a graph violating it
     is reported: it is a counterexample to `colours = colour refinement` for some max_iter),
     (iii) Coq model of are_isomorphic vs the implementation."""
-    from ..common import coq_eval
+    from ..common import safe_coq_eval
     from ..compare import partition
     rng = ctx.rng
     quick = ctx.tier == 'quick'
@@ -273,7 +273,18 @@ def _wl_model_family(ctx, impl):
                      '(k, wl_collision_free wl_sort g P wl_eps k (repeat 0 (length g)) true, '
                      'wl_margin_ok wl_sort g P wl_eps %s k (repeat 0 (length g)) true), '
                      'cr_iter_tab g k))' % (g, P, c['mi'], c['mi'], WL_TOL))
-    vals = coq_eval('c02wl', WL_IMPORTS, exprs, shard=40 if quick else 60, timeout=900) if exprs else []
+    vals = safe_coq_eval(ctx, 'c02wl', WL_IMPORTS, exprs, shard=40 if quick else 60, timeout=900) if exprs else []
+    if vals is None:
+        # model dead (recorded in ctx.proof_broken): the implementation's colouring is still judged by the Python colour
+        # refinement where that is the whole specification (undirected, no loops, run to the fixed point)
+        vals = []
+        for c in runs:
+            if c['fam'] in ('exh', 'und') and c['mi'] == -1 and c['S']:
+                want, got = partition(refine_partition(c['n'], c['S'])), partition(c['colors'])
+                if got != want:
+                    ctx.violation('color_weisfeiler_lehman', 'colour classes differ from colour refinement',
+                                  case=dict(n=c['n'], edges=c['S'], max_iter=c['mi'], family=c['fam']), expected=want,
+                                  observed=got, kind='wl_refinement')
     agree_exact = 0
     for c, v in zip(runs, vals):
         model, (k, coll_free, margin), tab = v
@@ -346,19 +357,24 @@ def _wl_model_family(ctx, impl):
         iso_runs.append(dict(a=a, rows2=_rows_of_call(tb['ok']['calls'][0]), what=what, perm=p, mi=mi, r=r, s2=s2))
     exprs = ['are_isomorphic wl_sort %s %s %s (%d)%%Z' % (_glit(x['a']['rows']), _glit(x['rows2']), _plit(x['a']['powers']), x['mi'])
              for x in iso_runs]
-    vals = coq_eval('c02wli', WL_IMPORTS, exprs, shard=40 if quick else 60, timeout=900) if exprs else []
+    vals = safe_coq_eval(ctx, 'c02wli', WL_IMPORTS, exprs, shard=40 if quick else 60, timeout=900) if exprs else []
+    iso_dead = vals is None
+    if iso_dead:
+        vals = [None] * len(iso_runs)      # model dead: only the clause judged on the implementation alone is checked
     n_err = 0
     for x, v in zip(iso_runs, vals):
         r = x['r']
         obs = ('Ok', r['ok']) if 'ok' in r else ('Err', (r.get('err'),))
         case = dict(n=x['a']['n'], edges=x['a']['S'], other=x['s2']['coo'], perm=x['perm'], max_iter=x['mi'])
         if x['what'] == 'perm':
-            if v != ('Ok', True):        # an instance of are_isomorphic_iso: cannot happen
+            if not iso_dead and v != ('Ok', True):        # an instance of are_isomorphic_iso: cannot happen
                 ctx.violation('are_isomorphic', 'Coq model rejects a renumbered copy (harness or theorem-statement defect)',
                               case=case, observed=v, kind='wl_theorem_instance')
             if obs != ('Ok', True):
                 ctx.violation('are_isomorphic', 'a graph is declared non-isomorphic to a renumbered copy of itself',
                               case=case, observed=r, kind='wl_iso')
+            continue
+        if iso_dead:
             continue
         if v == ('Err', ('ValueError',)):
             n_err += 1
@@ -405,7 +421,7 @@ def wl_adversarial_graph():
 
 
 def _wl_adversarial(ctx, impl):
-    from ..common import coq_eval
+    from ..common import safe_coq_eval
     from ..compare import partition
     n, E, u, v = wl_adversarial_graph()
     S = gen.sym(E)
@@ -421,15 +437,20 @@ def _wl_adversarial(ctx, impl):
     want = partition(refine_partition(n, S))
     got = partition(colors)
     g, P = _glit(_rows_of_call(call)), _plit(call['powers'])
-    val = coq_eval('c02wla', WL_IMPORTS,
-                   ['(let g := %s in let P := %s in let c := color_weisfeiler_lehman wl_sort g P (-1)%%Z in '
-                    '(c, (wl_collision_free wl_sort g P wl_eps (length g) (repeat 0 (length g)) true, '
-                    'wl_margin_ok wl_sort g P wl_eps %s (length g) (repeat 0 (length g)) true)))' % (g, P, WL_TOL)],
-                   timeout=900)[0]
-    model, (coll_free, margin) = val
+    val = safe_coq_eval(ctx, 'c02wla', WL_IMPORTS,
+                        ['(let g := %s in let P := %s in let c := color_weisfeiler_lehman wl_sort g P (-1)%%Z in '
+                         '(c, (wl_collision_free wl_sort g P wl_eps (length g) (repeat 0 (length g)) true, '
+                         'wl_margin_ok wl_sort g P wl_eps %s (length g) (repeat 0 (length g)) true)))' % (g, P, WL_TOL)],
+                        timeout=900)
+    if val is None:
+        # model dead: the verdict below (implementation vs Python colour refinement) does not need it
+        model, (coll_free, margin) = None, (None, None)
+    else:
+        model, (coll_free, margin) = val[0]
+    model_eq = None if model is None else (partition(model) == got)
     ctx.extra['wl_adversarial'] = dict(n=n, implementation_classes=len(got), refinement_classes=len(want),
-                                       model_classes=len(partition(model)), model_collision_free=coll_free,
-                                       model_equals_implementation=(partition(model) == got), margin_ok=margin)
+                                       model_classes=None if model is None else len(partition(model)),
+                                       model_collision_free=coll_free, model_equals_implementation=model_eq, margin_ok=margin)
     if got != want:
         ctx.violation('color_weisfeiler_lehman',
                       'nodes %d and %d have the same degree and different multisets of neighbour colours whose hashes differ by '
@@ -438,5 +459,5 @@ def _wl_adversarial(ctx, impl):
                       expected=dict(classes=len(want), same_class=False),
                       observed=dict(classes=len(got), same_class=(colors[u] == colors[v])),
                       kind='hash_collision', final_partition_wrong=True, adversarial=True,
-                      model_collision_free=coll_free, model_equals_implementation=(partition(model) == got))
+                      model_collision_free=coll_free, model_equals_implementation=model_eq)
 # <<< WL model correspondence
